@@ -832,9 +832,9 @@ class DAGRunConcurrentManager(DAGRunManagerLike):
             await self.__unlock_descendants(node_id)
             await self.__unlock_run_method()
 
-            if node_id == dag.dest:
-                logger.debug('The node %s is an output node', node_id)
-                await self.__unlock_itself(node_id)
+            # Whoever waits for this very node is woken up: the dag the node is the destination of, and a OneOf that
+            # has found the node - its next candidate - already running for another dag
+            await self.__unlock_itself(node_id)
 
     async def __unlock_itself(self, node_id: NodeId) -> None:
         """
